@@ -316,7 +316,7 @@ def check_lazy_init_order(rep, prog, rule):
                     for h in getattr(st, "handlers", []) or []:
                         visit(h.body, before + block[:i])
             visit(f.node.body, [])
-    rep.count("load-on-first-use idioms", n_idioms)
+    rep.floor("load-on-first-use idioms", n_idioms, 1)
 
 
 def check_text_decoding(rep, prog, rule, module_prefix, what):
@@ -325,21 +325,36 @@ def check_text_decoding(rep, prog, rule, module_prefix, what):
     messages with characters lost or changed"""
     n = 0
     for cs in call_sites(prog):
-        if not cs.module.name.startswith(module_prefix) or cs.name not in ("open", "builtins.open", "io.open", "codecs.open"):
+        if not cs.module.name.startswith(module_prefix):
             continue
-        mode = open_mode(cs.node)
-        if mode is not None and "b" in mode:
-            continue
-        n += 1
+        meth = cs.node.func.attr if isinstance(cs.node.func, ast.Attribute) else None
         kws = {k.arg: k.value for k in cs.node.keywords}
         pos = cs.node.args
-        enc = kws.get("encoding", pos[3] if len(pos) > 3 else None)
-        err = kws.get("errors", pos[4] if len(pos) > 4 else None)
+        if cs.name in ("open", "builtins.open", "io.open", "codecs.open"):
+            mode = open_mode(cs.node)
+            if mode is not None and "b" in mode:
+                continue
+            enc = kws.get("encoding", pos[3] if len(pos) > 3 else None)
+            err = kws.get("errors", pos[4] if len(pos) > 4 else None)
+        elif meth == "read_text":
+            # pathlib.Path(...).read_text(encoding=None, errors=None)
+            enc = kws.get("encoding", pos[0] if len(pos) > 0 else None)
+            err = kws.get("errors", pos[1] if len(pos) > 1 else None)
+        elif meth == "open" and (cs.name or "").split(".")[0] not in ("os", "gzip", "bz2", "lzma", "tarfile", "zipfile", "webbrowser"):
+            # pathlib.Path(...).open(mode='r', buffering=-1, encoding=None, errors=None)
+            m_ = kws.get("mode", pos[0] if len(pos) > 0 else None)
+            if isinstance(m_, ast.Constant) and isinstance(m_.value, str) and "b" in m_.value:
+                continue
+            enc = kws.get("encoding", pos[2] if len(pos) > 2 else None)
+            err = kws.get("errors", pos[3] if len(pos) > 3 else None)
+        else:
+            continue
+        n += 1
         enc_ok = enc is None or (isinstance(enc, ast.Constant) and (enc.value is None or str(enc.value).lower().replace("_", "-") in ("utf-8", "utf8", "utf-8-sig")))
         err_ok = err is None or (isinstance(err, ast.Constant) and err.value in (None, "strict"))
         rep.check(enc_ok and err_ok, rule, "%s:%s %s is read as UTF-8 / locale text with strict decoding" % (cs.where, cs.node.lineno, what), cs.where,
                   cs.node, "%s is opened with %s: characters outside that character set are dropped or shown as other characters in the "
                   "names / messages taken from the file" % (what, ", ".join("%s=%s" % (k_, ast.unparse(v_)) for k_, v_ in (("encoding", enc), ("errors", err)) if v_ is not None)),
                   node=cs.node, file=cs.module.rel)
-    rep.count("text-mode open() calls checked for their decoding", n)
+    rep.floor("text-mode open() calls checked for their decoding (%s)" % module_prefix, n, 1)
     return n
